@@ -99,6 +99,42 @@ def strSub (xs : List Int) (pos len : Int) : Option (List Int) :=
   if pos < 0 ∨ pos > xs.length then none
   else some (if len < 0 then xs.drop pos.toNat else (xs.drop pos.toNat).take len.toNat)
 
+/-! ### the string find family (`size_t` results; `npos` = 2^64 - 1) -/
+
+def npos : Nat := 18446744073709551615
+
+def matchAt (s f : List Int) (i : Nat) : Bool := (s.drop i).take f.length == f && i + f.length ≤ s.length
+
+/-- smallest index in `[lo, hi]` satisfying `p` (searching upward) -/
+def firstIdx (p : Nat → Bool) (lo hi : Nat) : Nat :=
+  match ((List.range (hi + 1 - lo)).map (· + lo)).find? p with
+  | some i => i
+  | none => npos
+
+/-- largest index in `[0, hi]` satisfying `p` (searching downward) -/
+def lastIdx (p : Nat → Bool) (hi : Nat) : Nat :=
+  match ((List.range (hi + 1)).reverse).find? p with
+  | some i => i
+  | none => npos
+
+def strFind (s f : List Int) (pos : Nat) : Nat :=
+  if pos > s.length then npos else firstIdx (matchAt s f) pos s.length
+def strRfind (s f : List Int) (pos : Nat) : Nat :=
+  if f.length > s.length then npos else lastIdx (matchAt s f) (min pos (s.length - f.length))
+def strFirstOf (s set : List Int) (pos : Nat) (neg : Bool) : Nat :=
+  if s.isEmpty || pos ≥ s.length then npos else firstIdx (fun i => (set.contains (s.getD i 0)) != neg) pos (s.length - 1)
+def strLastOf (s set : List Int) (pos : Nat) (neg : Bool) : Nat :=
+  if s.isEmpty then npos else lastIdx (fun i => (set.contains (s.getD i 0)) != neg) (min pos (s.length - 1))
+
+/-- `kind`: 0 find, 1 rfind, 2 find_first_of, 3 find_last_of, 4 find_first_not_of, 5 find_last_not_of -/
+def strSearch (kind : Nat) (s f : List Int) (pos : Nat) : Nat :=
+  match kind with
+  | 0 => strFind s f pos | 1 => strRfind s f pos | 2 => strFirstOf s f pos false | 3 => strLastOf s f pos false
+  | 4 => strFirstOf s f pos true | _ => strLastOf s f pos true
+
+/-- the one-argument prelude wrappers pass `size_t(0)` (forward searches) or `size_t(-1)` (backward searches) -/
+def strSearchDefaultPos (kind : Nat) : Nat := if kind == 1 || kind == 3 || kind == 5 then npos else 0
+
 /-! ### Bidir_Range over an unmodified container -/
 
 structure Rng where
